@@ -703,7 +703,9 @@ def check_C15(F, tier, t0):
     guarded(R, 'L remarks', engine_l.rule_comment_holes, F, R, 'n_queens_gen')
     front_end(R, F)       # the emitted text means what the language's tokenizer and operator tables say it means
     guarded(R, 'X5', engine_x.rule_X5, F, R)      # ... with every name of the emitted formula a variable of its own
-    evaluation(R, make_engine(F))       # ... and what the evaluator and the operations it dispatches to compute for it
+    E_ = make_engine(F); evaluation(R, E_)       # ... and what the evaluator and the operations it dispatches to compute for it
+    guarded(R, 'S var_is_free', run_S, R, E_, [FRF], spec_bdd.B, False)      # ... the columns of the listing are the formula's free variables (seed C16-r11a: a vertex that only occurs in a counting list lost its column)
+    guarded(R, 'X4 free_vars', engine_x.rule_X4, F, R, ('vars',))
     guarded(R, 'X3', engine_x.rule_X3, F, R); guarded(R, 'T filter spellings', engine_t.rule_tte, F, R)       # ... and the models are listed through the table printer (-t / -v, -f)
     R.floor('L-W:arithmetic-sites', 6); R.floor('L-W:ranges', 4); R.floor('N:loop-nests', 6); R.floor('N:proved-lines', 6); R.floor('N:families', 4)
     return finish(R, 'proof', tier, t0,
@@ -729,7 +731,9 @@ def check_C16(F, tier, t0):
     guarded(R, 'L remarks', engine_l.rule_comment_holes, F, R, 'max_clique_gen')
     front_end(R, F)       # the emitted text means what the language's tokenizer and operator tables say it means
     guarded(R, 'X5', engine_x.rule_X5, F, R)      # ... with every name of the emitted formula a variable of its own
-    evaluation(R, make_engine(F))       # ... and what the evaluator and the operations it dispatches to compute for it
+    E_ = make_engine(F); evaluation(R, E_)       # ... and what the evaluator and the operations it dispatches to compute for it
+    guarded(R, 'S var_is_free', run_S, R, E_, [FRF], spec_bdd.B, False)      # ... the columns of the listing are the formula's free variables (seed C16-r11a: a vertex that only occurs in a counting list lost its column)
+    guarded(R, 'X4 free_vars', engine_x.rule_X4, F, R, ('vars',))
     guarded(R, 'X3', engine_x.rule_X3, F, R); guarded(R, 'T filter spellings', engine_t.rule_tte, F, R)       # ... and the models are listed through the table printer (-t / -v, -f)
     R.floor('L:complement-push-sites', 1); R.floor('L:truth-table-rows', 16); R.floor('L:vertex-list-uses', 3); R.floor('L:template-skeleton-pieces', 6)
     return finish(R, 'other', tier, t0,
@@ -805,7 +809,9 @@ def check_C17(F, tier, t0):
     guarded(R, 'L remarks', engine_l.rule_comment_holes, F, R, 'sudoku_gen')
     front_end(R, F)       # the emitted text means what the language's tokenizer and operator tables say it means
     guarded(R, 'X5', engine_x.rule_X5, F, R)      # ... with every name of the emitted formula a variable of its own
-    evaluation(R, make_engine(F))       # ... and what the evaluator and the operations it dispatches to compute for it
+    E_ = make_engine(F); evaluation(R, E_)       # ... and what the evaluator and the operations it dispatches to compute for it
+    guarded(R, 'S var_is_free', run_S, R, E_, [FRF], spec_bdd.B, False)      # ... the columns of the listing are the formula's free variables (seed C16-r11a: a vertex that only occurs in a counting list lost its column)
+    guarded(R, 'X4 free_vars', engine_x.rule_X4, F, R, ('vars',))
     guarded(R, 'X3', engine_x.rule_X3, F, R); guarded(R, 'T filter spellings', engine_t.rule_tte, F, R)       # ... and the models are listed through the table printer (-t / -v, -f)
     guarded(R, 'L-W', engine_l.rule_width, F, R, 'sudoku_gen')
     R.floor('U:list-emissions', 4); R.floor('U:proved-families', 4); R.floor('U:families-required', 4); R.floor('U:hint-rule', 1); R.floor('U:whitespace-filter', 1)
